@@ -30,6 +30,14 @@ func checkC18(r *Run) {
 	c.ruleFailedKept(r3, r3)
 	r5 := r.Rule("R-C18-5", "no lock is re-acquired on a path that already holds it (a self-deadlock on the timeout path would stall the task goroutine for ever)")
 	c.ruleSelfDeadlock(r5)
+	r6 := r.Rule("R-C18-6", "a new connection is established: the reconnect loop returns only behind ctx done, `disconnected` or a graceful end — not because the connection it closed itself reported some error")
+	if m, why := c.reconnModel(); m != nil {
+		c.ruleLoopStopsOnlyOnRequest(r6, m)
+	} else {
+		r6.Lost("reconnect-loop", "%s", why)
+	}
+	r7 := r.Rule("R-C18-7", "what is reported is a RequestTimeoutError: every context bounded by ResponseTimeout is the requestContext wrapper and its Err() wraps whenever the bound can have expired (R-C19-6)")
+	c.ruleTimeoutIdentity(r7)
 	c.ruleRetryRequeue(nil, r3, "multiset")
 	c.ruleRecycleInTaskLoop(r3, a)
 
@@ -196,6 +204,59 @@ func checkC18(r *Run) {
 		if ex != nil && ex.Index == 0 {
 			wt, _ = ex.Tuple.(*ssa.Call)
 		}
+		cancelOf := func(k *ssa.Call) ssa.Value {
+			for _, u := range *k.Referrers() {
+				if e, ok := u.(*ssa.Extract); ok && e.Index == 1 {
+					return e
+				}
+			}
+			return nil
+		}
+		// returnsCancel: the second result is the bound's cancel function, or a closure that calls it
+		returnsCancel := func(k *ssa.Call) bool {
+			cf := cancelOf(k)
+			cv := c.Resolve(c.RetVal(ret, 1))
+			if cf == nil {
+				return false
+			}
+			if cv == cf {
+				return true
+			}
+			if mc, ok := cv.(*ssa.MakeClosure); ok {
+				if fn, ok := mc.Fn.(*ssa.Function); ok {
+					calls := false
+					eachInstr(fn, func(x ssa.Instruction) {
+						if kk, ok := x.(*ssa.Call); ok && c.Resolve(kk.Call.Value) == cf {
+							calls = true
+						}
+					})
+					return calls
+				}
+			}
+			return false
+		}
+		if wt != nil && isStdCall(&wt.Call, "context", "WithCancel") && wt.Call.Args[0] == ssa.Value(rcF.Params[1]) {
+			// WithCancel armed by time.AfterFunc(ResponseTimeout, cancel)
+			armed := false
+			cf := cancelOf(wt)
+			eachInstr(rcF, func(x ssa.Instruction) {
+				k, ok := x.(*ssa.Call)
+				if !ok || !isStdCall(&k.Call, "time", "AfterFunc") || len(k.Call.Args) != 2 {
+					return
+				}
+				if _, isRT := isFieldLoad(c.Resolve(k.Call.Args[0]), "RetryClient", "ResponseTimeout"); !isRT {
+					return
+				}
+				if cf != nil && c.Resolve(k.Call.Args[1]) == cf && Dominated(rcF, ret, func(y ssa.Instruction) bool { return y == x }, PathQ{}) {
+					armed = true
+				}
+			})
+			if armed && returnsCancel(wt) {
+				okRC = true
+				r2.OK("requestContext/timeout", wt.Pos(), "&requestContext{WithCancel(ctx)} cancelled by time.AfterFunc(c.ResponseTimeout, cancel), with its cancel")
+				continue
+			}
+		}
 		if wt == nil || !isStdCall(&wt.Call, "context", "WithTimeout") {
 			r2.Bad("requestContext/timeout", ret.Pos(), "the request context is not derived with context.WithTimeout: it never expires")
 			continue
@@ -208,13 +269,9 @@ func checkC18(r *Run) {
 			r2.Bad("requestContext/timeout", wt.Pos(), "the timeout operand is not ResponseTimeout")
 			continue
 		}
-		// cancel returned is WithTimeout's cancel
-		cv := c.Resolve(c.RetVal(ret, 1))
-		if e2, ok := cv.(*ssa.Extract); !ok || e2.Tuple != ssa.Value(wt) || e2.Index != 1 {
-			if ct, ok := cv.(*ssa.ChangeType); !ok || func() bool { e3, ok := ct.X.(*ssa.Extract); return !ok || e3.Tuple != ssa.Value(wt) }() {
-				r2.Bad("requestContext/cancel", ret.Pos(), "requestContext does not hand back WithTimeout's cancel function")
-				continue
-			}
+		if !returnsCancel(wt) {
+			r2.Bad("requestContext/cancel", ret.Pos(), "requestContext does not hand back WithTimeout's cancel function")
+			continue
 		}
 		okRC = true
 		r2.OK("requestContext/timeout", wt.Pos(), "&requestContext{WithTimeout(ctx, c.ResponseTimeout)} with its cancel")
